@@ -154,6 +154,18 @@ func makeRemoteSource(sourceType string, u *url.URL, subPath string) (RemoteSour
 	if err != nil {
 		return RemoteSource{}, fmt.Errorf("invalid URL syntax in %q: %w", u.String(), err)
 	}
+	// A URL value assembled by hand can carry in one field what belongs in
+	// another (a "#" inside RawQuery, for instance), so the structural rules
+	// above must hold for the form that is kept, too.
+	if canon.User != nil {
+		return RemoteSource{}, fmt.Errorf("must not use username or password in URL portion")
+	}
+	if canon.Opaque != "" || canon.Host == "" {
+		return RemoteSource{}, fmt.Errorf("must be a URL with a hostname, like %s://example.com/...", u.Scheme)
+	}
+	if canon.Fragment != "" || canon.RawFragment != "" {
+		return RemoteSource{}, fmt.Errorf("must not include a URL fragment")
+	}
 	u = canon
 
 	return RemoteSource{
